@@ -4,11 +4,12 @@ import (
 	"fmt"
 	"go/ast"
 	"go/constant"
-	"go/parser"
 	"go/token"
 	"go/types"
 	"math/big"
+	"os"
 	"sort"
+	"strconv"
 	"strings"
 )
 
@@ -27,7 +28,7 @@ func init() {
 			{ID: "C02.R5", Floor: 2, Doc: "short two's-complement encodings are sign-extended for every length", Run: c02r5},
 			{ID: "C02.R6", Floor: 20, Doc: "unmarshalIntlike masks equal the CQL width and fit the destination", Run: c02r6},
 			{ID: "C02.R7", Floor: 3, Doc: "nullable destinations: nil for null, fresh value otherwise", Run: c02r7},
-			{ID: "C02.R8", Floor: 2, Doc: "varint trimming: a leading byte is dropped only when it is 0x00 followed by a byte with the top bit clear, or 0xFF followed by a byte with the top bit set", Run: c02r8},
+			{ID: "C02.R8", Floor: 1, Doc: "varint trimming: a leading byte is dropped only when it is 0x00 followed by a byte with the top bit clear, or 0xFF followed by a byte with the top bit set", Run: c02r8},
 		},
 		Variants: []Variant{{Name: "linux/386", GOARCH: "386"}},
 	})
@@ -549,20 +550,122 @@ func c02r3(p *Program, r *Report) {
 	w, rd := r.NeedFunc("writeCollectionSize"), r.NeedFunc("readCollectionSize")
 	if w != nil && rd != nil {
 		wi, ri := w.Pkg.TypesInfo, rd.Pkg.TypesInfo
-		isV3Cond := func(c string) (bool, bool) { // (known form, true means "protocol >= 3")
-			c = strings.ReplaceAll(c, " ", "")
+		// isV3Cond: (known form, true means "protocol >= 3") for a comparison of <x>.proto with a constant
+		isV3Cond := func(info *types.Info, c ast.Expr) (bool, bool) {
+			b, ok := ast.Unparen(c).(*ast.BinaryExpr)
+			if !ok {
+				return false, false
+			}
+			x, y, op := ast.Unparen(b.X), ast.Unparen(b.Y), b.Op
+			if _, isK := constInt(info, x); isK {
+				// constant on the left: mirror
+				x, y = y, x
+				op = map[token.Token]token.Token{token.LSS: token.GTR, token.GTR: token.LSS, token.LEQ: token.GEQ, token.GEQ: token.LEQ}[op]
+			}
+			sel, isSel := x.(*ast.SelectorExpr)
+			k, isK := constInt(info, y)
+			if !isSel || sel.Sel.Name != "proto" || !isK {
+				return false, false
+			}
 			switch {
-			case strings.HasSuffix(c, ".proto>protoVersion2"), strings.HasSuffix(c, ".proto>=protoVersion3"):
+			case op == token.GTR && k == 2, op == token.GEQ && k == 3:
 				return true, true
-			case strings.HasSuffix(c, ".proto<=protoVersion2"), strings.HasSuffix(c, ".proto<protoVersion3"):
+			case op == token.LEQ && k == 2, op == token.LSS && k == 3:
 				return true, false
 			}
 			return false, false
 		}
-		pathV3 := func(ap apath) (v3, known bool) {
+		// widthSelector: a helper whose every path branches on the protocol version and returns a constant: the
+		// constants for protocol >= 3 and <= 2
+		widthSelector := func(h *FuncInfo) (v3, v2 int64, ok bool) {
+			if h == nil || h.Decl.Body == nil {
+				return 0, 0, false
+			}
+			hi := h.Pkg.TypesInfo
+			paths, okP := enumPaths(h.Decl.Body.List)
+			if !okP {
+				return 0, 0, false
+			}
+			seen3, seen2 := false, false
+			for _, ap := range paths {
+				if ap.Ret == nil || len(ap.Ret.Results) != 1 {
+					return 0, 0, false
+				}
+				k, isK := constInt(hi, ap.Ret.Results[0])
+				if !isK {
+					return 0, 0, false
+				}
+				decided := false
+				for _, c := range ap.Conds {
+					if okForm, pos := isV3Cond(hi, c.Cond); okForm {
+						decided = true
+						if c.Val == pos {
+							if seen3 && v3 != k {
+								return 0, 0, false
+							}
+							v3, seen3 = k, true
+						} else {
+							if seen2 && v2 != k {
+								return 0, 0, false
+							}
+							v2, seen2 = k, true
+						}
+						break
+					}
+				}
+				if !decided {
+					return 0, 0, false
+				}
+			}
+			return v3, v2, seen3 && seen2 && v3 != v2
+		}
+		pathV3 := func(fi *FuncInfo, ap apath) (v3, known bool) {
+			info := fi.Pkg.TypesInfo
 			for _, c := range ap.Conds {
-				if okForm, pos := isV3Cond(exprStr(ast.Unparen(c.Cond))); okForm {
+				if okForm, pos := isV3Cond(info, c.Cond); okForm {
 					return c.Val == pos, true
+				}
+				// <width helper>(info) ==/!= K, possibly through a variable assigned on this path
+				b, ok := ast.Unparen(c.Cond).(*ast.BinaryExpr)
+				if !ok || b.Op != token.EQL && b.Op != token.NEQ {
+					continue
+				}
+				for _, pr := range [][2]ast.Expr{{b.X, b.Y}, {b.Y, b.X}} {
+					k, isK := constInt(info, ast.Unparen(pr[1]))
+					if !isK {
+						continue
+					}
+					e := ast.Unparen(pr[0])
+					if id, isId := e.(*ast.Ident); isId {
+						for _, st := range ap.Stmts {
+							if as, ok := st.(*ast.AssignStmt); ok && len(as.Lhs) == len(as.Rhs) {
+								for i, l := range as.Lhs {
+									if exprStr(l) == id.Name {
+										e = ast.Unparen(as.Rhs[i])
+									}
+								}
+							}
+						}
+					}
+					call, isCall := e.(*ast.CallExpr)
+					if !isCall {
+						continue
+					}
+					fn := calleeOf(info, call)
+					if fn == nil {
+						continue
+					}
+					w3, w2, okSel := widthSelector(p.FuncOf(fn))
+					if !okSel {
+						continue
+					}
+					eq := c.Val == (b.Op == token.EQL) // the path took "helper == K"
+					switch {
+					case k == w3:
+						return eq, true
+					case k == w2:
+						return !eq, true
+					}
 				}
 			}
 			return false, false
@@ -575,7 +678,7 @@ func c02r3(p *Program, r *Report) {
 		}
 		seenW, seenR := map[bool]bool{}, map[bool]bool{}
 		for _, ap := range wpaths {
-			v3, known := pathV3(ap)
+			v3, known := pathV3(w, ap)
 			if ap.Ret == nil || len(ap.Ret.Results) != 1 || !isNil(wi, ap.Ret.Results[0]) {
 				continue // error return
 			}
@@ -598,7 +701,7 @@ func c02r3(p *Program, r *Report) {
 			r.Check(enc.BigEndian && enc.Width == width && okVal, ap.Ret, "writeCollectionSize protocol "+ifs(v3, ">= 3: 4 bytes big-endian", "<= 2: 2 bytes big-endian"), fmt.Sprintf("%d bytes of %s (%s)", enc.Width, enc.Value, enc.How), fmt.Sprintf("writes %d bytes of %s, big-endian=%v (%s), not the %d-byte big-endian size", enc.Width, enc.Value, enc.BigEndian, enc.How, width))
 		}
 		for _, ap := range rpaths {
-			v3, known := pathV3(ap)
+			v3, known := pathV3(rd, ap)
 			if ap.Ret != nil && len(ap.Ret.Results) == 3 && !isNil(ri, ap.Ret.Results[2]) {
 				continue // error return
 			}
@@ -651,7 +754,20 @@ func c02r3(p *Program, r *Report) {
 			if v3 {
 				width = 4
 			}
-			readN, _ := constInt(ri, readE)
+			readN, isReadK := constInt(ri, readE)
+			if !isReadK {
+				// the consumed count comes from the width helper this path branched on
+				if call, isCall := ast.Unparen(readE).(*ast.CallExpr); isCall {
+					if fn := calleeOf(ri, call); fn != nil {
+						if w3, w2, okSel := widthSelector(p.FuncOf(fn)); okSel {
+							readN = w2
+							if v3 {
+								readN = w3
+							}
+						}
+					}
+				}
+			}
 			dec, okDec := decodingOf(ri, sizeE)
 			if !okDec {
 				r.Unresolved("readCollectionSize: the size expression %s is neither a shift chain nor an encoding/binary call", exprStr(sizeE))
@@ -1077,10 +1193,24 @@ func isByteSlice(t types.Type) bool {
 const allLens = 0x3fe // bits 1..9 (9 = nine or more bytes)
 
 type signScan struct {
+	fi    *FuncInfo
 	p     *Program
 	info  *types.Info
 	data  string // name of the []byte parameter
 	depth int
+	nest  int
+}
+
+// callsInNoLen: the calls in e other than len / cap and conversions are not looked at here: any call counts.
+func callsInNoLen(e ast.Expr) []*ast.CallExpr {
+	var out []*ast.CallExpr
+	for _, c := range callsIn(e) {
+		if f := exprStr(c.Fun); f == "len" || f == "cap" {
+			continue
+		}
+		out = append(out, c)
+	}
+	return out
 }
 
 func lenMaskCmp(op token.Token, k int64, lenOnLeft bool) int {
@@ -1153,6 +1283,18 @@ func (sc *signScan) mentionsSign(e ast.Expr) bool {
 func (sc *signScan) cond(mask int, e ast.Expr, val bool) int {
 	e = ast.Unparen(e)
 	switch x := e.(type) {
+	case *ast.Ident:
+		// a boolean local that names a condition over the same, unchanged operands
+		if sc.fi != nil && sc.nest < 3 {
+			if obj, isVar := sc.info.Uses[x].(*types.Var); isVar && !obj.IsField() && singleAssigned(sc.info, sc.fi.Decl.Body, obj) {
+				if d := localDef(sc.info, sc.fi, x); d != nil && len(callsInNoLen(d)) == 0 {
+					sc.nest++
+					m := sc.cond(mask, d, val)
+					sc.nest--
+					return m
+				}
+			}
+		}
 	case *ast.UnaryExpr:
 		if x.Op == token.NOT {
 			return sc.cond(mask, x.X, !val)
@@ -1232,7 +1374,7 @@ func signPending(p *Program, fi *FuncInfo, depth int) int {
 	if dataName == "" {
 		return allLens
 	}
-	sc := &signScan{p: p, info: g.Info, data: dataName, depth: depth}
+	sc := &signScan{fi: fi, p: p, info: g.Info, data: dataName, depth: depth}
 	sol := signSolve(g, sc)
 	out := 0
 	for _, e := range g.Exits() {
@@ -1287,7 +1429,7 @@ func c02r5(p *Program, r *Report) {
 	// unmarshalVarint: the int64 handed to unmarshalIntlike
 	if fi := r.NeedFunc("unmarshalVarint"); fi != nil {
 		g := p.GraphOf(fi)
-		sc := &signScan{p: p, info: g.Info, data: "data"}
+		sc := &signScan{fi: fi, p: p, info: g.Info, data: "data"}
 		sol := signSolve(g, sc)
 		n := 0
 		for _, c := range callsIn(fi.Decl.Body) {
@@ -1515,87 +1657,212 @@ func c02r8(p *Program, r *Report) {
 		}
 		doneFn[fi] = true
 		g := p.GraphOf(fi)
-		facts := g.GuardFacts()
+		info := g.Info
+		facts := g.GuardFactsPS()
 		ast.Inspect(fi.Decl.Body, func(x ast.Node) bool {
 			loop, ok := x.(*ast.ForStmt)
 			if !ok {
 				return true
 			}
-			inc, ok := loop.Post.(*ast.IncDecStmt)
-			if !ok || inc.Tok != token.INC {
+			// the two leading bytes and the statements that drop the first of them:
+			//  A: an index i walks the slice: bytes X[i], X[i+1], dropped by an i++ in the body
+			//  B: the slice itself is shortened: bytes P[0], P[1], dropped by P = P[1:]
+			lo, hi := map[string]bool{}, map[string]bool{}
+			var drops []ast.Stmt
+			if inc, isInc := loop.Post.(*ast.IncDecStmt); isInc && inc.Tok == token.INC {
+				iv := exprStr(inc.X)
+				ast.Inspect(loop.Body, func(y ast.Node) bool {
+					switch z := y.(type) {
+					case *ast.IndexExpr:
+						switch strings.ReplaceAll(exprStr(z.Index), " ", "") {
+						case iv:
+							lo[exprStr(z)] = true
+						case iv + "+1":
+							hi[exprStr(z)] = true
+						}
+					case *ast.IncDecStmt:
+						if z.Tok == token.INC && exprStr(z.X) == iv {
+							drops = append(drops, z)
+						}
+					}
+					return true
+				})
+			} else {
+				ast.Inspect(loop.Body, func(y ast.Node) bool {
+					as, isAs := y.(*ast.AssignStmt)
+					if !isAs || as.Tok != token.ASSIGN || len(as.Lhs) != 1 || len(as.Rhs) != 1 {
+						return true
+					}
+					sl, isSl := ast.Unparen(as.Rhs[0]).(*ast.SliceExpr)
+					if !isSl || sl.High != nil || sl.Low == nil || exprStr(sl.X) != exprStr(as.Lhs[0]) {
+						return true
+					}
+					if k, isK := constInt(info, sl.Low); !isK || k != 1 {
+						return true
+					}
+					if t := info.TypeOf(as.Lhs[0]); t == nil || !strings.HasSuffix(t.String(), "[]byte") && !strings.HasSuffix(t.String(), "[]uint8") {
+						return true
+					}
+					pn := exprStr(as.Lhs[0])
+					lo[pn+"[0]"], hi[pn+"[1]"] = true, true
+					drops = append(drops, as)
+					return true
+				})
+			}
+			if len(lo) == 0 || len(hi) == 0 {
 				return true
 			}
-			iv := exprStr(inc.X)
-			// names of the byte at i and at i+1
-			lo, hi := "", ""
+			// locals bound to those bytes
 			ast.Inspect(loop.Body, func(y ast.Node) bool {
 				as, ok := y.(*ast.AssignStmt)
 				if !ok || as.Tok != token.DEFINE || len(as.Lhs) != len(as.Rhs) {
 					return true
 				}
 				for k, rhs := range as.Rhs {
-					ix, ok := ast.Unparen(rhs).(*ast.IndexExpr)
-					if !ok {
-						continue
-					}
-					idx := strings.ReplaceAll(exprStr(ix.Index), " ", "")
-					switch idx {
-					case iv:
-						lo = exprStr(as.Lhs[k])
-					case iv + "+1":
-						hi = exprStr(as.Lhs[k])
+					switch {
+					case lo[exprStr(ast.Unparen(rhs))]:
+						lo[exprStr(as.Lhs[k])] = true
+					case hi[exprStr(ast.Unparen(rhs))]:
+						hi[exprStr(as.Lhs[k])] = true
 					}
 				}
 				return true
 			})
-			if lo == "" || hi == "" {
+			if len(drops) == 0 {
 				return true
 			}
 			found++
-			known := func(f Facts, src string) (bool, bool) {
-				e, err := parser.ParseExpr(src)
-				if err != nil {
-					return false, false
-				}
-				return f.Known(e)
-			}
-			isTrue := func(f Facts, srcs ...string) bool {
-				for _, s := range srcs {
-					if v, ok := known(f, s); ok && v {
-						return true
-					}
-				}
-				return false
-			}
-			isFalse := func(f Facts, srcs ...string) bool {
-				for _, s := range srcs {
-					if v, ok := known(f, s); ok && !v {
-						return true
-					}
-				}
-				return false
-			}
 			n := 0
-			ast.Inspect(loop.Body, func(y ast.Node) bool {
-				st, ok := y.(*ast.IncDecStmt)
-				if !ok || st.Tok != token.INC || exprStr(st.X) != iv {
-					return true
-				}
+			for _, st := range drops {
 				n++
-				f, _ := facts.Before(st)
-				zero := isTrue(f, lo+" == 0", lo+" == 0x00") || isFalse(f, lo+" != 0")
-				ff := isTrue(f, lo+" == 0xFF", lo+" == 0xff", lo+" == 255") || isFalse(f, lo+" != 0xFF")
-				topClear := isTrue(f, hi+"&0x80 == 0", hi+" < 0x80") || isFalse(f, hi+"&0x80 != 0", hi+"&0x80 > 0", hi+" >= 0x80")
-				topSet := isTrue(f, hi+"&0x80 != 0", hi+"&0x80 > 0", hi+"&0x80 == 0x80", hi+" >= 0x80") || isFalse(f, hi+"&0x80 == 0", hi+" < 0x80")
-				okSkip := zero && topClear || ff && topSet
-				r.Check(okSkip, st, fmt.Sprintf("%s: leading byte skipped at %s only when redundant #%d", fi.Name, p.Pos(st), n), ifs(zero, "0x00 before a byte with the top bit clear", "0xFF before a byte with the top bit set"),
-					fmt.Sprintf("a leading byte is dropped under a condition that does not establish (%s == 0x00 and %s < 0x80) or (%s == 0xFF and %s >= 0x80): known here: zero=%v ff=%v topClear=%v topSet=%v. A sign byte that is needed is removed (e.g. -129 = ff 7f becomes 7f = 127) or a redundant one is kept", lo, hi, lo, hi, zero, ff, topClear, topSet))
-				return true
-			})
+				ps, _ := facts.Before(st)
+				okAll := len(ps) > 0
+				desc := ""
+				var loN, hiN string
+				for l := range lo {
+					loN = l
+				}
+				for h := range hi {
+					hiN = h
+				}
+				for _, f := range ps {
+					fv := foldedView(f)
+					if os.Getenv("DBGC02") != "" {
+						fmt.Fprintln(os.Stderr, "C02.R8 disjunct at", p.Pos(st), factsKey(f), "folded:", fv)
+					}
+					isTrue := func(keys ...string) bool {
+						for _, k := range keys {
+							if v, ok := fv[k]; ok && v {
+								return true
+							}
+						}
+						return false
+					}
+					isFalse := func(keys ...string) bool {
+						for _, k := range keys {
+							if v, ok := fv[k]; ok && !v {
+								return true
+							}
+						}
+						return false
+					}
+					zero, ff, topClear, topSet := false, false, false, false
+					for l := range lo {
+						l = strings.ReplaceAll(l, " ", "")
+						zero = zero || isTrue(l+"==0")
+						ff = ff || isTrue(l+"==255")
+					}
+					for h := range hi {
+						h = strings.ReplaceAll(h, " ", "")
+						topClear = topClear || isTrue(h+"&128==0", h+"<128") || isFalse("0<"+h+"&128", "127<"+h)
+						topSet = topSet || isTrue("0<"+h+"&128", h+"&128==128", "127<"+h) || isFalse(h+"&128==0", h+"<128")
+					}
+					if !(zero && topClear || ff && topSet) {
+						okAll = false
+					}
+					desc += fmt.Sprintf("[zero=%v ff=%v topClear=%v topSet=%v] ", zero, ff, topClear, topSet)
+				}
+				r.Check(okAll, st, fmt.Sprintf("%s: leading byte skipped at %s only when redundant #%d", fi.Name, p.Pos(st), n), "0x00 before a byte with the top bit clear, or 0xFF before a byte with the top bit set, on every path to the drop",
+					fmt.Sprintf("a leading byte is dropped under a condition that does not establish (%s == 0x00 and %s < 0x80) or (%s == 0xFF and %s >= 0x80): known on the paths here: %s. A sign byte that is needed is removed (e.g. -129 = ff 7f becomes 7f = 127) or a redundant one is kept", loN, hiN, loN, hiN, desc))
+			}
 			return true
 		})
 	}
 	if found == 0 {
 		r.Unresolved("marshalVarint: the leading-byte trimming loop (bytes at i and i+1) was not found in marshalVarint or its helpers")
 	}
+}
+
+// foldStr prints e with every constant sub-expression replaced by its decimal value and without spaces.
+func foldStr(info *types.Info, e ast.Expr) string {
+	var f func(e ast.Expr) string
+	f = func(e ast.Expr) string {
+		if e == nil {
+			return ""
+		}
+		if info != nil {
+			if k, ok := constInt(info, e); ok {
+				return fmtInt(int(k))
+			}
+		}
+		switch x := e.(type) {
+		case *ast.ParenExpr:
+			return f(x.X)
+		case *ast.BasicLit:
+			if x.Kind == token.INT {
+				if k, err := strconv.ParseInt(x.Value, 0, 64); err == nil {
+					return fmtInt(int(k))
+				}
+			}
+			return x.Value
+		case *ast.BinaryExpr:
+			l, rr := f(x.X), f(x.Y)
+			if _, isB := ast.Unparen(x.X).(*ast.BinaryExpr); isB {
+				if _, isP := x.X.(*ast.ParenExpr); isP {
+					l = "(" + l + ")"
+				}
+			}
+			if _, isP := x.Y.(*ast.ParenExpr); isP {
+				if _, isB := ast.Unparen(x.Y).(*ast.BinaryExpr); isB {
+					rr = "(" + rr + ")"
+				}
+			}
+			return l + x.Op.String() + rr
+		case *ast.UnaryExpr:
+			return x.Op.String() + f(x.X)
+		case *ast.IndexExpr:
+			return f(x.X) + "[" + f(x.Index) + "]"
+		case *ast.CallExpr:
+			var as []string
+			for _, a := range x.Args {
+				as = append(as, f(a))
+			}
+			return f(x.Fun) + "(" + strings.Join(as, ",") + ")"
+		case *ast.SelectorExpr:
+			return f(x.X) + "." + x.Sel.Name
+		}
+		return strings.ReplaceAll(exprStr(e), " ", "")
+	}
+	return f(e)
+}
+
+// foldedView: the relational atoms of f with constants folded (x==y in both orders, x<y), for matching against
+// literal-free patterns such as "b[1]&128==0".
+func foldedView(f Facts) map[string]bool {
+	out := map[string]bool{}
+	for atom, ra := range f.rel {
+		v, ok := f.m[atom]
+		if !ok {
+			continue
+		}
+		xs, ys := foldStr(f.info, ra.X), foldStr(f.info, ra.Y)
+		switch ra.Op {
+		case token.EQL:
+			out[xs+"=="+ys] = v
+			out[ys+"=="+xs] = v
+		case token.LSS:
+			out[xs+"<"+ys] = v
+		}
+	}
+	return out
 }
